@@ -540,7 +540,8 @@ class __Integer(_pre.Pregex):
         p_start = integer_start
         p_end = integer_start
 
-        pre = integer_start
+        # A numeral of more than one digit must not start with a zero.
+        pre = integer_start + _pre.Pregex().not_followed_by('0' + _cl.AnyDigit())
 
         for i, (d_start, d_end) in enumerate(zip(start, end)):
             # "if" block will always execute for i == 0.
